@@ -769,8 +769,11 @@ func ruleFRAutomaton(c *Ctx) {
 	reach := bs.reachUnderSym(fn, func(v ssa.Value) bool { return v == ssa.Value(state) }, dom)
 	// trigger of a block: nearest dominating true edge of an input test at the cursor
 	isCursorSlice := func(v ssa.Value) bool {
-		sl, ok := v.(*ssa.Slice)
-		return ok && sl.Low == ssa.Value(idx) && sl.High == nil
+		if _, ok := v.(*ssa.Slice); !ok {
+			return false
+		}
+		_, base, k, ok := sliceRoot(v)
+		return ok && base == ssa.Value(idx) && k == 0
 	}
 	triggerOf := func(b *ssa.BasicBlock) string {
 		best := ""
@@ -798,9 +801,11 @@ func ruleFRAutomaton(c *Ctx) {
 			case *ssa.BinOp:
 				if x.Op == token.EQL {
 					if ld, ok := x.X.(*ssa.UnOp); ok && ld.Op == token.MUL {
-						if ia, ok := ld.X.(*ssa.IndexAddr); ok && ia.Index == ssa.Value(idx) {
-							if k, ok := constInt(x.Y); ok {
-								t = string(rune(k))
+						if ia, ok := ld.X.(*ssa.IndexAddr); ok {
+							if _, base, off, ok := elementPos(ia); ok && base == ssa.Value(idx) && off == 0 {
+								if k, ok := constInt(x.Y); ok {
+									t = string(rune(k))
+								}
 							}
 						}
 					}
@@ -917,4 +922,47 @@ func init() {
 			Old: maybeLowerOriginal, New: maybeLowerHeadTail("'A' <= x[i] && x[i] <= 'Z'", "firstUpper+1"), Expect: "LOWER/maybeLower:byte#",
 			Why: "the byte at the first upper-case position is neither in the head nor in the tail"},
 	)
+}
+
+// sliceRoot peels re-slices without an upper bound: v = root[l1:][l2:]... ; the start is base + k with at most one
+// non-constant term (base nil: a constant start).
+func sliceRoot(v ssa.Value) (root, base ssa.Value, k int64, ok bool) {
+	root = v
+	for {
+		sl, isSl := root.(*ssa.Slice)
+		if !isSl {
+			return root, base, k, true
+		}
+		if sl.High != nil || sl.Max != nil {
+			return nil, nil, 0, false
+		}
+		if sl.Low != nil {
+			if cst, isC := constInt(sl.Low); isC {
+				k += cst
+			} else {
+				lb, lk := linTerm(sl.Low)
+				if base != nil {
+					return nil, nil, 0, false
+				}
+				base, k = lb, k+lk
+			}
+		}
+		root = sl.X
+	}
+}
+
+// elementPos: the position in the root slice that ia addresses: root[base+k].
+func elementPos(ia *ssa.IndexAddr) (root, base ssa.Value, k int64, ok bool) {
+	root, base, k, ok = sliceRoot(ia.X)
+	if !ok {
+		return
+	}
+	if cst, isC := constInt(ia.Index); isC {
+		return root, base, k + cst, true
+	}
+	ib, ik := linTerm(ia.Index)
+	if base != nil {
+		return nil, nil, 0, false
+	}
+	return root, ib, k + ik, true
 }
